@@ -25,6 +25,13 @@ def main(argv):
     if len(argv) >= 3 and argv[1] == "--replay":
         with open(argv[2]) as f:
             rep = json.load(f)
+        flags = rep["case"].get("interpreter_flags") if isinstance(rep.get("case"), dict) else None
+        xenv = rep["case"].get("interpreter_env") if isinstance(rep.get("case"), dict) else None
+        if (flags or xenv) and not os.environ.get("VF_SUBPASS"):
+            # the case was found under other interpreter conditions: replay it in such an interpreter
+            import subprocess
+            return subprocess.run([sys.executable] + list(flags or []) + ["-m", "vf.main"] + argv,
+                                  env=dict(os.environ, VF_SUBPASS="replay", **(xenv or {}))).returncode
         ctx = common.Ctx(pid)
         ctx.known_open = {}
         res = list(mod.replay(ctx, rep["case"]))
